@@ -24,8 +24,8 @@ enum Kind {
     Bad,
 }
 
-const PRELUDE: &str = "TYPE Rec\nCode AS STRING * 4\nN AS INTEGER\nEND TYPE\nDECLARE FUNCTION FI% (K%)\nDECLARE FUNCTION FS$ (S$)\nDECLARE SUB PI (K%)\nDECLARE SUB PS (S$)\nDIM FX AS STRING * 4\nDIM R AS Rec\nDIM AI%(3)\nDIM AS$(3)\nDIM AF(3) AS STRING * 4\nDIM AR(3) AS Rec\nI% = 1\nL& = 2\nS! = 1.5\nD# = 2.5\nT$ = \"ab\"\nFX = \"wxyz\"\nR.Code = \"abcd\"\nR.N = 3\nAI%(1) = 1\nAS$(1) = \"x\"\nAF(1) = \"q\"\n";
-const EPILOGUE: &str = "PRINT \"done\"\nEND\nFUNCTION FI% (K%)\nFI% = K% + 1\nEND FUNCTION\nFUNCTION FS$ (S$)\nFS$ = S$ + \"!\"\nEND FUNCTION\nSUB PI (K%)\nPRINT K%\nEND SUB\nSUB PS (S$)\nPRINT S$\nEND SUB\n";
+const PRELUDE: &str = "TYPE Rec\nCode AS STRING * 4\nN AS INTEGER\nEND TYPE\nDECLARE FUNCTION FI% (K%)\nDECLARE FUNCTION FS$ (S$)\nDECLARE SUB PI (K%)\nDECLARE SUB PS (S$)\nDECLARE SUB PI2 (A%, K%)\nDIM FX AS STRING * 4\nDIM R AS Rec\nDIM AI%(3)\nDIM AS$(3)\nDIM AF(3) AS STRING * 4\nDIM AR(3) AS Rec\nI% = 1\nL& = 2\nS! = 1.5\nD# = 2.5\nT$ = \"ab\"\nFX = \"wxyz\"\nR.Code = \"abcd\"\nR.N = 3\nAI%(1) = 1\nAS$(1) = \"x\"\nAF(1) = \"q\"\n";
+const EPILOGUE: &str = "PRINT \"done\"\nEND\nFUNCTION FI% (K%)\nFI% = K% + 1\nEND FUNCTION\nFUNCTION FS$ (S$)\nFS$ = S$ + \"!\"\nEND FUNCTION\nSUB PI (K%)\nPRINT K%\nEND SUB\nSUB PS (S$)\nPRINT S$\nEND SUB\nSUB PI2 (A%, K%)\nPRINT A%; K%\nEND SUB\n";
 
 const OPERANDS: [(&str, Kind); 18] = [
     ("1", Kind::Num),
@@ -63,7 +63,7 @@ fn bin_kind(op: &str, a: Kind, b: Kind) -> Kind {
 }
 
 /// (name, lines with @ for the expression, index of the line that holds @, kind the position needs: None = any)
-const CONTEXTS: [(&str, &str, usize, Option<Kind>); 23] = [
+const CONTEXTS: [(&str, &str, usize, Option<Kind>); 66] = [
     ("assignment to DOUBLE", "X# = @", 0, Some(Kind::Num)),
     ("assignment to STRING", "X$ = @", 0, Some(Kind::Str)),
     ("PRINT list", "PRINT 1; @; 2", 0, None),
@@ -87,7 +87,53 @@ const CONTEXTS: [(&str, &str, usize, Option<Kind>); 23] = [
     ("DO UNTIL condition", "DO\nLOOP UNTIL (@) OR 1", 1, Some(Kind::Num)),
     ("subscript of an array of records (read)", "PRINT AR(@).N", 0, Some(Kind::Num)),
     ("subscript of an array of records (assignment target)", "AR(@).N = 7", 0, Some(Kind::Num)),
+    ("ELSEIF condition", "IF 0 THEN\nELSEIF @ THEN\nPRINT \"t\"\nEND IF", 1, Some(Kind::Num)),
+    ("single-line IF condition with ELSE", "IF @ THEN PRINT \"t\" ELSE PRINT \"f\"", 0, Some(Kind::Num)),
+    ("CASE IS", "SELECT CASE 1\nCASE IS > @\nEND SELECT", 1, Some(Kind::Num)),
+    ("CASE range, low end", "SELECT CASE 1\nCASE @ TO 9\nEND SELECT", 1, Some(Kind::Num)),
+    ("CASE range, high end", "SELECT CASE 1\nCASE 0 TO @\nEND SELECT", 1, Some(Kind::Num)),
+    ("PRINT USING value", "PRINT USING \"###\"; @", 0, None),
+    ("PRINT USING format", "PRINT USING @; 1", 0, Some(Kind::Str)),
+    ("LPRINT list", "LPRINT @", 0, None),
+    ("array lower bound", "DIM ZX(@ TO 9)", 0, Some(Kind::Num)),
+    ("REDIM bound", "REDIM ZR(@)", 0, Some(Kind::Num)),
+    ("second subscript", "DIM Z2(3, 3)\nZ2(1, (@) AND 1) = 1", 1, Some(Kind::Num)),
+    ("nested subscript", "PRINT AI%(AI%((@) AND 1))", 0, Some(Kind::Num)),
+    ("READ target subscript", "DATA 5\nREAD AI%((@) AND 1)", 1, Some(Kind::Num)),
+    ("INPUT target subscript", "INPUT AI%((@) AND 1)", 0, Some(Kind::Num)),
+    ("record field target (INTEGER)", "R.N = @", 0, Some(Kind::Num)),
+    ("record field target (STRING * 4)", "R.Code = @", 0, Some(Kind::Str)),
+    ("fixed-length string target", "FX = @", 0, Some(Kind::Str)),
+    ("INTEGER target", "I% = (@) AND 1", 0, Some(Kind::Num)),
+    ("field of an array-of-records element target", "AR(1).N = @", 0, Some(Kind::Num)),
+    ("string array element target", "AS$(2) = @", 0, Some(Kind::Str)),
+    ("GET record number", "OPEN \"r.dat\" FOR RANDOM AS #1 LEN = 4\nFIELD #1, 4 AS RF$\nGET #1, ((@) AND 1) + 1\nCLOSE", 2, Some(Kind::Num)),
+    ("PUT record number", "OPEN \"r.dat\" FOR RANDOM AS #1 LEN = 4\nFIELD #1, 4 AS RF$\nPUT #1, ((@) AND 1) + 1\nCLOSE", 2, Some(Kind::Num)),
+    ("FIELD width", "OPEN \"r.dat\" FOR RANDOM AS #1 LEN = 4\nFIELD #1, ((@) AND 3) + 1 AS RF$\nCLOSE", 1, Some(Kind::Num)),
+    ("LSET value", "OPEN \"r.dat\" FOR RANDOM AS #1 LEN = 4\nFIELD #1, 4 AS RF$\nLSET RF$ = @\nCLOSE", 2, Some(Kind::Str)),
+    ("OPEN file name", "OPEN @ FOR OUTPUT AS #1\nCLOSE", 0, Some(Kind::Str)),
+    ("OPEN record length", "OPEN \"r.dat\" FOR RANDOM AS #1 LEN = ((@) AND 7) + 1\nCLOSE", 0, Some(Kind::Num)),
+    ("KILL name", "KILL @", 0, Some(Kind::Str)),
+    ("NAME old name", "NAME @ AS \"zz\"", 0, Some(Kind::Str)),
+    ("LOCATE row", "LOCATE ((@) AND 1) + 1, 1", 0, Some(Kind::Num)),
+    ("COLOR", "COLOR (@) AND 7, 0", 0, Some(Kind::Num)),
+    ("VIEW PRINT", "VIEW PRINT ((@) AND 1) + 1 TO 5", 0, Some(Kind::Num)),
+    ("DEF SEG", "DEF SEG = (@) AND 0", 0, Some(Kind::Num)),
+    ("POKE value", "POKE VARPTR(I%), (@) AND 255", 0, Some(Kind::Num)),
+    ("PEEK address", "PRINT PEEK(VARPTR(I%) + ((@) AND 1))", 0, Some(Kind::Num)),
+    ("ENVIRON", "ENVIRON @", 0, Some(Kind::Str)),
+    ("DO WHILE condition (top)", "DO WHILE (@) AND 0\nLOOP", 0, Some(Kind::Num)),
+    ("LOOP WHILE condition (bottom)", "DO\nLOOP WHILE (@) AND 0", 1, Some(Kind::Num)),
+    ("by-value argument after a by-reference one", "PI2 I%, (@)", 0, Some(Kind::Num)),
+    ("operand of string concatenation", "PRINT \"<\" + (@) + \">\"", 0, Some(Kind::Str)),
+    ("operand of unary minus in a subscript", "PRINT AI%(-(@) AND 1)", 0, Some(Kind::Num)),
+    ("argument of a FUNCTION that is an argument of a SUB", "PI FI%((@) AND 1)", 0, Some(Kind::Num)),
+    ("INPUT # target subscript", "OPEN \"i.txt\" FOR OUTPUT AS #1\nPRINT #1, 1\nCLOSE\nOPEN \"i.txt\" FOR INPUT AS #1\nINPUT #1, AI%((@) AND 1)\nCLOSE", 4, Some(Kind::Num)),
+    ("LINE INPUT target subscript", "LINE INPUT AS$((@) AND 1)", 0, Some(Kind::Num)),
 ];
+
+/// the first positions get every binary operator
+const CORE_CONTEXTS: usize = 23;
 
 struct Gen {
     nops: usize,
@@ -617,6 +663,10 @@ pub fn worker(case: &Value) -> Value {
                 let ctx = (idx % CONTEXTS.len() as u64) as usize;
                 let e = (idx / CONTEXTS.len() as u64) as usize;
                 let Some((text, kind)) = exprs.get(e) else { continue };
+                // the positions added later get the operands, the unary forms and four binary operators (one per family)
+                if ctx >= CORE_CONTEXTS && BINOPS.iter().any(|op| !matches!(*op, "+" | "<" | "AND" | "MOD") && text.contains(&format!(" {} ", op))) {
+                    continue;
+                }
                 n += 1;
                 typed_case(ctx, text, *kind, &mut acc, json!({"g": g, "nops": genr.nops, "lo": idx, "hi": idx + 1}));
             }
@@ -772,7 +822,7 @@ pub fn drive(tier: &str) -> i32 {
     }
     groups.push(super::run_text_group(&mut run, &pool, "statement templates x operand menu: soundness, renaming", &stmts, 40, &extra));
     let mut ev = Evidence::new("exploration");
-    ev.set("rule", "typed: every operand, unary and binary expression (13 operators) over 10 (thorough 18) operands of all kinds (a whole record, literals, variables of every numeric type, strings, fixed-length strings as variable / array element / record member, array elements, user FUNCTION results, built-in results) in 23 syntactic positions (assignments, PRINT list, parentheses, IF / WHILE / DO conditions, SELECT subject, CASE lists, FOR start / limit / step, array subscripts and bounds, the subscript of an array-of-records element read and assigned through a field, by-value SUB arguments, FUNCTION arguments inside a subscript, built-in arguments): a kind model (numeric / string / ill-kinded) decides which programs must be rejected with a type error in the statement that holds the expression; accepted programs are executed and must not raise Type mismatch (13) nor panic. calls: 9 ill-formed calls of user-defined and built-in functions (argument count, argument type, by-reference type) bare, in parentheses, as an operand, inside a subscript and as an argument, in each of the 23 positions: rejected with the matching error at the statement's row. corpus: every harvested text, generated control program and statement template is run (soundness oracle outside READ / INPUT / PRINT USING statements), renamed consistently in three ways (every user-chosen word component gets a suffix, first letter and type suffix kept — twice; every first letter replaced by the next letter that has the same default type under the program's DEFtype statements): same verdict and output; every accepted one is edited once at every applicable site (numeric literal next to * or / -> string literal, GOTO / GOSUB target -> missing label, NEXT counter -> another name, label line / DIM line duplicated, one more argument in a SUB call): rejected, and where the error is of the edit's family it is located at the edited row.");
+    ev.set("rule", "typed: every operand, unary and binary expression (13 operators) over 10 (thorough 18) operands of all kinds (a whole record, literals, variables of every numeric type, strings, fixed-length strings as variable / array element / record member, array elements, user FUNCTION results, built-in results) in 66 syntactic positions (the 23 core positions with all 13 binary operators, the others with + < AND MOD) (assignments to every kind of target, PRINT list, parentheses, IF / WHILE / DO conditions, SELECT subject, CASE lists, FOR start / limit / step, array subscripts and bounds, the subscript of an array-of-records element read and assigned through a field, by-value SUB arguments, FUNCTION arguments inside a subscript, built-in arguments, ELSEIF / single-line IF / DO conditions, CASE IS and both ends of a CASE range, PRINT USING / LPRINT lists, REDIM and lower bounds, second and nested subscripts, subscripts of READ / INPUT / INPUT # / LINE INPUT targets and of a FOR counter, the arguments of the file statements (OPEN name and LEN, FIELD width, LSET value, GET / PUT record number, KILL, NAME) and of LOCATE / COLOR / VIEW PRINT / DEF SEG / POKE / PEEK / ENVIRON): a kind model (numeric / string / ill-kinded) decides which programs must be rejected with a type error in the statement that holds the expression; accepted programs are executed and must not raise Type mismatch (13) nor panic. calls: 9 ill-formed calls of user-defined and built-in functions (argument count, argument type, by-reference type) bare, in parentheses, as an operand, inside a subscript and as an argument, in each of the 66 positions: rejected with the matching error at the statement's row. corpus: every harvested text, generated control program and statement template is run (soundness oracle outside READ / INPUT / PRINT USING statements), renamed consistently in three ways (every user-chosen word component gets a suffix, first letter and type suffix kept — twice; every first letter replaced by the next letter that has the same default type under the program's DEFtype statements): same verdict and output; every accepted one is edited once at every applicable site (numeric literal next to * or / -> string literal, GOTO / GOSUB target -> missing label, NEXT counter -> another name, label line / DIM line duplicated, one more argument in a SUB call): rejected, and where the error is of the edit's family it is located at the edited row.");
     ev.set("exhaustive", !run.capped);
     ev.set("groups", json!(groups));
     ev.set("plan", json!({"typed_expressions": nexpr, "positions": CONTEXTS.len(), "ill_formed_calls": ctotal}));
